@@ -375,6 +375,7 @@ def prove(hyps, goals, *, alg_atoms=None, sq_atoms=None, inv_atoms=None, defined
         need = set()
         for g in goals:
             need |= (g.vars() & dset)
+            need |= (norm(g).vars() & dset)      # squares of sqrt/abs atoms are rewritten: follow the radicand too
         hv = [h.vars() & dset for h in hyps]
         used = [False] * len(hyps)
         changed = True
